@@ -18,6 +18,9 @@ import (
 	"verif/engine/enum"
 
 	ct "github.com/google/certificate-transparency-go"
+	"verif/ref/ct6962"
+	"verif/ref/pki"
+
 	"github.com/google/certificate-transparency-go/client"
 	"github.com/google/certificate-transparency-go/jsonclient"
 	cttls "github.com/google/certificate-transparency-go/tls"
@@ -53,11 +56,16 @@ func (c *checker) batchSizes() {
 		}
 	}
 	const start = 40
+	// the batch cycles through a certificate entry, a precertificate entry and a certificate entry whose certificate
+	// parses with a remark the lenient parser does not treat as fatal (an entry like any other)
+	lintCert := pki.NewLeaf("c12 batch lint", pki.LoadKey("rsa2048-1~nonull"), c.w.ca, pki.LeafOpts{})
+	lintLeaf := must(ct6962.AppendMerkleTreeLeaf(nil, ct6962.MerkleTreeLeaf{Entry: ct6962.TimestampedEntry{Timestamp: 99, SignedEntry: ct6962.SignedEntry{Cert: lintCert.DER}}}))
+	batchEntries := []refEntry{c.w.entries[0], c.w.entries[1], {lintLeaf, c.w.entries[0].extra}}
 	enum.ParFor(len(jobs), r.Expired, func(ji int) {
 		j := jobs[ji]
 		a := jarr()
 		for i := 0; i < j.n; i++ {
-			e := c.w.entries[i%len(c.w.entries)]
+			e := batchEntries[i%len(batchEntries)]
 			leaf := e.leaf
 			if i == j.bad {
 				leaf = leaf[:len(leaf)-3] // a MerkleTreeLeaf cut short: no decoder accepts it
@@ -88,7 +96,7 @@ func (c *checker) batchSizes() {
 			r.Violation("GetRawEntries does not return the served batch", fmt.Sprintf("%d entries served: err=%v", j.n, e1), desc)
 		} else {
 			for i, e := range raw.Entries {
-				w := c.w.entries[i%len(c.w.entries)]
+				w := batchEntries[i%len(batchEntries)]
 				wl := w.leaf
 				if i == j.bad {
 					wl = wl[:len(wl)-3]
@@ -112,11 +120,11 @@ func (c *checker) batchSizes() {
 			return
 		}
 		for i := range ents {
-			w := c.w.entries[i%len(c.w.entries)]
+			w := batchEntries[i%len(batchEntries)]
 			var ml ct.MerkleTreeLeaf
 			ml = ents[i].Leaf
 			li, err := tlsMarshalLeaf(&ml)
-			pre := i%len(c.w.entries) == 1
+			pre := i%len(batchEntries) == 1
 			ok := err == nil && bytes.Equal(li, w.leaf) && ents[i].Index == start+int64(i) && len(ents[i].Chain) == 2
 			if pre {
 				ok = ok && ents[i].Precert != nil && ents[i].X509Cert == nil
